@@ -14,7 +14,11 @@ try:
     recs, _ = vcheck.run_rules(root, rules_, 'quick', os.path.join(sc, 'w'))
     sites = vcheck.merge(recs)
     cnt = {}
+    known = vcheck.load_known()
+    import rules as R
     for s in sites:
+        if s['kind'] == 'violation' and any(vcheck.match_known(s, p_, known) for p_ in R.PROPS):
+            s['kind'] = 'known'
         cnt[(s['rule'], s['kind'])] = cnt.get((s['rule'], s['kind']), 0) + 1
         if s['kind'] in ('violation', 'unknown'):
             print('%-9s %s %s:%d %s | %s | %s' % (s['kind'], s['rule'], s['file'], s['line'], s['func'][-40:], s['construct'][:80], s['detail'][:160]))
